@@ -83,8 +83,12 @@ def run(tier):
     for cfg in cfgs:
         ck.log("%s: %d programs" % (cfg, len(cases)))
         outs[cfg] = common.run_batch(cfg, cases, timeout=tmo)
+        hung = 0
         for i, res in enumerate(outs[cfg]):
             if "abort" in res and res["abort"]["why"] == "timeout":
+                hung += 1
+                if hung > 3:
+                    continue   # a tree on which many programs hang is decided by the first few
                 if not common.confirmed_hang(cfg, cases[i]):
                     ck.inconclusive.append("watchdog fired for %s on %s but the hang did not reproduce" % (progs[i][0], cfg))
     ck.coverage["configurations"] = cfgs
